@@ -13,7 +13,7 @@ layouts, page numbers, key types and fuel. The declarative predicates (`Checksum
 defined in Lemmas/Format.lean. The hash function occurs only as `Redb.Xxh3.checksum`, opaquely.
 
 C12 (binding) assumes injectivity of the hash as an explicit hypothesis `hinj` (the standard
-idealisation), never as an axiom.
+idealisation), never assumed globally.
 -/
 namespace Redb.Format
 open Redb.Key Redb.Spec Redb.BTree
@@ -196,6 +196,41 @@ theorem c10_treeOk_spec (img : ByteArray) (lay : Layout) (kt : KT) (kw vw : Opti
   let ⟨s1, s2, s3, s4⟩ := wf_consequences kt _ _ h.wf
   ⟨h.checksums, s1, s2, ⟨_, s3⟩, s4, h.length.symm⟩
 
+/-- what `NormalTableOk` (the per-table part of `ImageOk` for normal and system tables) means:
+the stored count, the order of the entries, and — when the root is not null — a tree satisfying
+conjuncts 1, 3, 4 whose pages are all in the list of pages returned -/
+theorem c10_normal_table_spec (img : ByteArray) (lay : Layout) (kt : KT) (d : TableDef)
+    (seen : List PageNumber) (es : List Entry) (pages : List PageNumber)
+    (h : NormalTableOk img lay kt d seen es pages) :
+    d.tableLength = es.length ∧ Sorted kt es ∧ (∀ e, e ∈ es → valid kt e.1 = true) ∧
+    (d.root = none → es = []) ∧
+    (∀ hd, d.root = some hd → ∃ pt, es = flatten pt.erase ∧
+      TreeOk img lay kt d.fixedKey d.fixedValue hd pt ∧ (∀ x ∈ pt.pages, x ∈ pages) ∧
+      pt.pages.Nodup ∧ ∀ x ∈ pt.pages, x ∉ seen) := by
+  obtain ⟨r, hr, he, hl⟩ := h
+  cases hroot : d.root with
+  | none =>
+    rw [hroot] at hr
+    obtain ⟨rfl, _⟩ := hr
+    subst he
+    exact ⟨hl, trivial, (by intro e he; cases he), fun _ => rfl, (by intro hd h; cases h)⟩
+  | some hd =>
+    rw [hroot] at hr
+    obtain ⟨pt, rfl, hok, hf⟩ := hr
+    subst he
+    obtain ⟨s1, s2, _, _⟩ := wf_consequences kt _ _ hok.wf
+    refine ⟨hl, s1, s2, (by intro h; cases h), ?_⟩
+    intro hd' h'
+    cases h'
+    exact ⟨pt, rfl, hok, hf.mem, hf.2.1, hf.2.2⟩
+
+/-- the pages of a checked tree are among the pages of every later list -/
+theorem c10_tree_pages_in_all (img : ByteArray) (lay : Layout) (kt : KT) (kw vw : Option Nat)
+    (root : Option BtreeHeader) (seen pages all : List PageNumber) (pt : PTree)
+    (h : RootChecked img lay kt kw vw root seen (some pt) pages) (he : Extends pages all) :
+    ∀ x ∈ pt.pages, x ∈ all :=
+  fun x hx => he.subset x (h.pages_mem x hx)
+
 /-! ## 6. C12: binding -/
 
 /-- If page `pn` decodes in two images under the SAME stored checksum `ck`, and the hash is
@@ -310,6 +345,63 @@ example : ∃ e, decodeTree img lay (some 1) (some 1) 1 pn (0 :: ck.tail) [] = .
   have hb : byteAt leafBytes 0 = 1 := by decide
   have hne : (ck != 0 :: ck.tail) = true := by decide
   simp [decodeTree, getPage_eq, hb, decodeLeaf_eq', checksum_eq, hne, fail]
+
+/-! ### a whole image: empty database (both master trees null) -/
+
+def slotPrefix : Bytes := 3 :: List.replicate 111 0
+def slotCk : Bytes := [26, 106, 181, 239, 97, 209, 128, 141, 7, 44, 3, 147, 134, 251, 188, 63]
+def slot0 : Bytes := slotPrefix ++ slotCk
+def header : Bytes :=
+  magic ++ [0, 0, 0] ++ [64, 1, 0, 0] ++ [0, 0, 0, 0] ++ [1, 0, 0, 0] ++ [1, 0, 0, 0] ++ [0, 0, 0, 0] ++
+    List.replicate 32 0 ++ slot0 ++ List.replicate 128 0
+def emptyDb : ByteArray := (header ++ List.replicate 320 0).toByteArray
+
+
+set_option maxRecDepth 20000
+
+theorem emptyDb_size : emptyDb.size = 640 := by
+  rw [emptyDb, List.size_toByteArray]; rfl
+
+def emptyLayout : Layout :=
+  { pageSize := 320, regionHeaderPages := 0, regionMaxDataPages := 1, numFullRegions := 1, trailingPages := 0 }
+
+def emptyHeader : Header :=
+  { layout := emptyLayout, primarySlot := 0, recoveryRequired := false, twoPhaseCommit := false,
+    slot0 := slot0, slot1 := List.replicate 128 0 }
+
+theorem emptyDb_header : decodeHeader emptyDb = some emptyHeader := by
+  have h : (emptyDb.extract 0 320).toList = header := by
+    rw [emptyDb, extract_toByteArray_toList]; rfl
+  simp only [decodeHeader, emptyDb_size, h]
+  rfl
+
+set_option maxRecDepth 8000 in
+theorem slot0_checksum : slotChecksumOk slot0 = true := by
+  have h1 : slot0.take 112 = slotPrefix := by rfl
+  have h2 : slot0.drop 112 = slotCk := by rfl
+  have h3 : Redb.Xxh3.checksum slotPrefix.toByteArray = slotCk := by decide +kernel
+  rw [slotChecksumOk, h1, h2, h3]; decide
+
+theorem slot0_decode : decodeSlot slot0 = some
+    { version := 3, userRoot := none, systemRoot := none, txnId := 0, checksum := slotCk } := by
+  rfl
+
+/-- an image whose primary slot is valid and has two null roots passes, whatever the rest is -/
+theorem checkImage_null_roots (img : ByteArray) (ps : Nat) (h : Header) (slot : Slot)
+    (hh : decodeHeader img = some h) (h1 : h.layout.pageSize = ps)
+    (h2 : h.layout.regionMaxDataPages ≠ 0) (h3 : h.layout.numRegions ≠ 0)
+    (h4 : h.layout.fileLen = img.size) (h5 : slotChecksumOk h.primary = true)
+    (h6 : decodeSlot h.primary = some slot) (h7 : slot.version = 3)
+    (h8 : slot.userRoot = none) (h9 : slot.systemRoot = none) :
+    checkImage img ps [] = .ok () := by
+  simp [checkImage, hh, h1, h2, h3, h4, h5, h6, h7, h8, h9, decodeMaster, decodeCheckedTree,
+    pagesDisjoint, firstOverlap, bind, Except.bind, pure, Except.pure]
+
+/-- a database image with an empty data master tree and an empty system master tree passes the
+whole-image check, so the hypothesis of `c10_image_ok` is satisfiable -/
+theorem emptyDb_ok : checkImage emptyDb 320 [] = .ok () :=
+  checkImage_null_roots emptyDb 320 emptyHeader _ emptyDb_header rfl (by decide) (by decide)
+    (by rw [emptyDb_size]; rfl) slot0_checksum slot0_decode rfl rfl rfl
 
 end Example
 end Redb.Format
